@@ -1,6 +1,6 @@
 PID = "C06"
 WORKER = "w_c06"
-HEADER = "From Coq Require Import List ZArith QArith Qcanon.\nFrom Dimod Require Import Base.Util Model.Poly Model.Sym Model.ChkC06.\nImport ListNotations."
+HEADER = "From Coq Require Import List ZArith QArith Qcanon.\nFrom Dimod Require Import Base.Util Model.Poly Model.Sym Model.SymStore Model.ChkC06.\nImport ListNotations."
 CHECK_FN = "check"
 N_QUICK = 8000
 N_THOROUGH = 120000
@@ -11,7 +11,7 @@ RULE = ("random expression trees (depth <= 4) over a pool of 1-4 operands: Binar
         "clashing vartype or clashing bounds for a shared label), pre-built BQMs (three dtypes), QMs (two dtypes), CQM objective "
         "and constraint views, numbers (int, float, numpy scalars) on either side; operators + - * / unary -/+ ** quicksum sum "
         "and ndarray.dot, each binary operator also in its in-place form; after every operator all operands are re-observed; "
-        "a case is non-trivial when the result is a model; distinct by canonical JSON of the case")
+        "one case in eight is a comparison `a <= / >= / == b` (number on either side, occasionally models on both) handed to cqm.add_constraint, observing the stored lhs, sense and rhs; a failing in-place operator must leave its receiver unchanged; a case is non-trivial when the result is a model; distinct by canonical JSON of the case")
 TRUSTED = ["model: coq/theories/Model/Poly.v, Sym.v, ChkC06.v (hand written, tied by this correspondence)",
            "float arithmetic of the implementation is exact on the generated dyadic data (not verified)"]
 ASSUMPTIONS = ["the coefficients a model reports (linear, quadratic, offset) define its energy (that is property C01)",
